@@ -1,4 +1,5 @@
 import LaunchpadModel.Lemmas.MintPay
+import LaunchpadModel.Model.MintPayStaged
 /-!
 # C02 — A mint charges exactly the current price and disburses all of it
 
@@ -318,8 +319,16 @@ theorem paid_eq_outflow {w w' : World} {sender : Addr} {isAdmin : Bool} {funds :
     simp [coinsIn]
 
 /-- "the minter contract's own balance is unchanged, so no coins are … stranded" — every denom, every variant,
-provided the minter is not itself the payer or one of the payees -/
-theorem C02_minter_balance_unchanged (w w' : World) (sender : Addr) (isAdmin : Bool) (funds : List Coin) (allowed : Bool)
+provided the minter is not itself the payer or one of the payees.
+
+PARTIAL.  The full clause would be, for ALL mint kinds of ALL variants,
+  `mint w sender isAdmin funds allowed = .ok w' → sender ≠ w.m.addr → w.m.addr ∉ recipients … → w'.bank.bal w.m.addr d = w.bank.bal w.m.addr d`.
+It is FALSE for token-merge deposits that carry funds (`family = tokenMerge`, `isAdmin = false`, `funds ≠ []`): that path
+(`execute_receive_nft → _execute_mint(is_admin = false)`) has no payment check and emits no bank message, so whatever
+arrives with the deposit stays in the minter — `C02_merge_deposit_funds_counterexample` below, replayed on the real
+contract by `corpus/C02/merge-deposit-with-funds.json`.  Hypothesis `hnd` excludes exactly that case (a standard cw721
+`send_nft` forwards no funds, so it needs a listed collection contract that does). -/
+theorem C02_minter_balance_unchanged_partial (w w' : World) (sender : Addr) (isAdmin : Bool) (funds : List Coin) (allowed : Bool)
     (h : mint w sender isAdmin funds allowed = .ok w')
     (hnd : ¬(w.v.family = .tokenMerge ∧ isAdmin = false) ∨ funds = [])
     (hsm : sender ≠ w.m.addr) (hrec : w.m.addr ∉ recipients w.v w.f w.m) (d : Denom) :
@@ -333,6 +342,15 @@ theorem C02_minter_balance_unchanged (w w' : World) (sender : Addr) (isAdmin : B
   have hs : ¬ w.m.addr = sender := fun e => hsm e.symm
   simp only [hs, if_false, if_true, hin, hflow d] at hl
   omega
+
+/-- COMPATIBILITY ALIAS, same statement as `C02_minter_balance_unchanged_partial` (hypothesis `hnd` included): kept only because
+`Props/CompositeVending.lean` (not a C02 file) refers to this name; to be deleted once that file uses `…_partial`. -/
+theorem C02_minter_balance_unchanged (w w' : World) (sender : Addr) (isAdmin : Bool) (funds : List Coin) (allowed : Bool)
+    (h : mint w sender isAdmin funds allowed = .ok w')
+    (hnd : ¬(w.v.family = .tokenMerge ∧ isAdmin = false) ∨ funds = [])
+    (hsm : sender ≠ w.m.addr) (hrec : w.m.addr ∉ recipients w.v w.f w.m) (d : Denom) :
+    w'.bank.bal w.m.addr d = w.bank.bal w.m.addr d :=
+  C02_minter_balance_unchanged_partial w w' sender isAdmin funds allowed h hnd hsm hrec d
 
 /-- "On success the payer's balance drops by exactly that price" (a payer who is not also a payee; for an admin
 airdrop with no payment address the admin is the seller and gets `price − fee` back: see `C02_ledger`) -/
@@ -632,7 +650,7 @@ theorem away_step (w : World) (op : Op) (hop : OpAway w.m.addr w.v op) (hrec : w
     · intro d
       cases op with
       | mint s ad fu al =>
-        exact C02_minter_balance_unchanged w w' s ad fu al hstep hop.2 hop.1 hrec d
+        exact C02_minter_balance_unchanged_partial w w' s ad fu al hstep hop.2 hop.1 hrec d
       | fund a c =>
         cases hstep
         have hne : ¬ w.m.addr = a := fun e => hop e.symm
@@ -664,8 +682,8 @@ theorem away_step (w : World) (op : Op) (hop : OpAway w.m.addr w.v op) (hrec : w
         · cases hstep; rfl
         · cases hstep
 
-/-- "the minter contract's own balance is unchanged" after ANY history: whatever sequence of mints (with any funds,
-accepted or not), price / discount / whitelist / fee-parameter updates and clock steps, the minter holds in every denom
+/-- "the minter contract's own balance is unchanged" after ANY history (token-merge deposits carrying funds excluded by
+`OpAway`, see `C02_minter_balance_unchanged_partial`): whatever sequence of mints (with any funds, accepted or not), price / discount / whitelist / fee-parameter updates and clock steps, the minter holds in every denom
 exactly what it held at the start — nothing is ever stranded in it -/
 theorem C02_history_minter_never_holds (w : World) (ops : List Op)
     (hrec : w.m.addr ∉ recipients w.v w.f w.m) (hops : ∀ op ∈ ops, OpAway w.m.addr w.v op) (d : Denom) :
@@ -682,6 +700,323 @@ theorem C02_history_minter_never_holds (w : World) (ops : List Op)
       exact hops o (List.mem_cons_of_mem _ ho))
     rw [hma] at this
     rw [this, hbal d]
+
+/-! ## Staged (tiered) whitelists, whitelist-side edits, other messages — `Model/MintPayStaged.lean`
+
+The driver runs `sstep`: the minter's one-window view of its whitelist is recomputed from the attached contract's stage
+table and the clock (`SWorld.refresh`) before every operation, then the unchanged `step` runs.  So every single-step
+theorem above applies to the refreshed world; the theorems below say WHICH price that is, at which instants it changes,
+and lift the history theorems to operation lists that also contain `SetWhitelist`, whitelist-admin edits and arbitrary
+other messages. -/
+
+theorem current_some {sc : Sched} {now : Nat} {st : Stage} (h : sc.current now = some st) :
+    st ∈ sc.stages ∧ st.activeAt sc.endIncl now = true := by
+  unfold Sched.current at h
+  exact ⟨List.mem_of_find?_eq_some h, by simpa using List.find?_some h⟩
+
+theorem window_active (st : Stage) (incl : Bool) (now : Nat) (h : st.activeAt incl now = true) :
+    (st.window incl).active now = true := by
+  unfold Stage.activeAt at h
+  unfold Whitelist.active Stage.window
+  cases incl <;> simp at h ⊢ <;> omega
+
+theorem refresh_whitelist (s : SWorld) : s.refresh.m.whitelist = s.sched.bind (·.view s.w.now) := rfl
+
+/-- "the price currently in force for that kind of mint": while a stage of the ATTACHED whitelist contract contains the
+clock value — `start ≤ now < end` for the single-stage kinds, `start ≤ now ≤ end` and the first such stage for the tiered
+kinds — a `Mint {}` is charged that stage's price -/
+theorem C02_price_stage (s : SWorld) (sc : Sched) (st : Stage) (hs : s.sched = some sc)
+    (hc : sc.current s.w.now = some st) :
+    selectPrice s.refresh.v s.refresh.f s.refresh.m s.refresh.now false = .ok st.price := by
+  have hw : s.refresh.m.whitelist = some (st.window sc.endIncl) := by
+    rw [refresh_whitelist, hs]; simp [Sched.view, hc]
+  have := C02_price_whitelist s.refresh.v s.refresh.f s.refresh.m s.refresh.now (st.window sc.endIncl) hw
+    (window_active st sc.endIncl s.w.now (current_some hc).2)
+  simpa [Stage.window] using this
+
+theorem publicPrice_refresh (s : SWorld) : publicPrice s.refresh.v s.refresh.m = publicPrice s.w.v s.w.m := by
+  unfold publicPrice SWorld.refresh
+  cases s.w.v.family <;> rfl
+
+/-- no whitelist attached, or no stage of it contains the clock value (before the first stage, in a gap between two
+stages, after the last one, all stages removed): the public price — vending: the discount price when one is set -/
+theorem C02_price_no_stage (s : SWorld) (h : ∀ sc, s.sched = some sc → sc.current s.w.now = none) :
+    selectPrice s.refresh.v s.refresh.f s.refresh.m s.refresh.now false = .ok (publicPrice s.w.v s.w.m) := by
+  have hw : s.refresh.m.whitelist = none := by
+    rw [refresh_whitelist]
+    cases hs : s.sched with
+    | none => rfl
+    | some sc => simp [Sched.view, h sc hs]
+  simp [selectPrice, senderPrice, hw, publicPrice_refresh]
+
+/-- exact instants at which a stage stops being in force: a tiered stage still is in its last instant `end` and is not
+one nanosecond later; a single-stage whitelist is in force at `end − 1` and no longer at `end` -/
+theorem C02_stage_end_boundary (st : Stage) (h : st.startT < st.endT) :
+    st.activeAt true st.endT = true ∧ st.activeAt true (st.endT + 1) = false ∧
+    st.activeAt false (st.endT - 1) = true ∧ st.activeAt false st.endT = false := by
+  unfold Stage.activeAt
+  refine ⟨?_, ?_, ?_, ?_⟩ <;> simp <;> omega
+
+/-- … and starts: in force at `start`, not one nanosecond earlier (both kinds) -/
+theorem C02_stage_start_boundary (st : Stage) (incl : Bool) (h : st.startT < st.endT) :
+    st.activeAt incl st.startT = true ∧ (0 < st.startT → st.activeAt incl (st.startT - 1) = false) := by
+  unfold Stage.activeAt
+  cases incl <;> refine ⟨?_, ?_⟩ <;> simp <;> omega
+
+/-- hand-over between two CONTIGUOUS tiered stages (`start₂ = end₁`, which `validate_stages` allows): in the shared
+instant the EARLIER stage's price is charged, one nanosecond later the later stage's -/
+theorem C02_stage_handover (a b : Stage) (rest : List Stage) (ha : a.startT < a.endT) (hab : b.startT = a.endT)
+    (hb : b.startT < b.endT) :
+    (Sched.mk (a :: b :: rest) true).current a.endT = some a ∧
+    (Sched.mk (a :: b :: rest) true).current (a.endT + 1) = some b := by
+  unfold Sched.current
+  constructor
+  · have : a.activeAt true a.endT = true := by unfold Stage.activeAt; simp; omega
+    simp [List.find?, this]
+  · have h1 : a.activeAt true (a.endT + 1) = false := by unfold Stage.activeAt; simp
+    have h2 : b.activeAt true (a.endT + 1) = true := by unfold Stage.activeAt; simp; omega
+    simp [List.find?, h1, h2]
+
+/-- a gap between two tiered stages belongs to neither: the public price is charged there -/
+theorem C02_stage_gap (a b : Stage) (now : Nat) (h1 : a.endT < now) (h2 : now < b.startT) :
+    (Sched.mk [a, b] true).current now = none := by
+  unfold Sched.current
+  have ha : a.activeAt true now = false := by unfold Stage.activeAt; simp; omega
+  have hb : b.activeAt true now = false := by unfold Stage.activeAt; simp; omega
+  simp [List.find?, ha, hb]
+
+theorem sstep_base_ok {s s' : SWorld} {op : Op} (h : sstep s (.base op) = .ok s') :
+    ∃ w', step s.refresh op = .ok w' ∧ s' = { s with w := w' } := by
+  simp only [sstep] at h
+  split at h
+  · rename_i w' hw; cases h; exact ⟨w', hw, rfl⟩
+  · cases h
+
+/-- "A mint (public, whitelist …) succeeds only if the caller attaches exactly the price currently in force" at the
+staged layer the driver runs: a successful `Mint {}` attached exactly the price of the stage in force at that instant,
+or exactly the public / discount price when no stage is (nothing when that price is zero) -/
+theorem C02_staged_exact_payment (s s' : SWorld) (who : Addr) (funds : List Coin) (allowed : Bool)
+    (hsale : IsSale s.w.v false) (h : sstep s (.base (.mint who false funds allowed)) = .ok s') :
+    ∃ price, funds = exactFunds price ∧
+      ((∃ sc st, s.sched = some sc ∧ sc.current s.w.now = some st ∧ price = st.price) ∨
+       ((∀ sc, s.sched = some sc → sc.current s.w.now = none) ∧ price = publicPrice s.w.v s.w.m)) := by
+  obtain ⟨w', hw, _⟩ := sstep_base_ok h
+  obtain ⟨price, hsel, hf⟩ := C02_exact_payment s.refresh w' who false funds allowed hsale hw
+  refine ⟨price, hf, ?_⟩
+  cases hs : s.sched with
+  | none =>
+    right
+    have hn : ∀ sc, s.sched = some sc → sc.current s.w.now = none := by intro sc h'; rw [hs] at h'; cases h'
+    refine ⟨(by intro sc h'; cases h'), ?_⟩
+    rw [C02_price_no_stage s hn] at hsel
+    cases hsel; rfl
+  | some sc =>
+    cases hc : sc.current s.w.now with
+    | some st =>
+      left
+      rw [C02_price_stage s sc st hs hc] at hsel
+      cases hsel
+      exact ⟨sc, st, rfl, hc, rfl⟩
+    | none =>
+      right
+      have hn : ∀ sc', s.sched = some sc' → sc'.current s.w.now = none := by
+        intro sc' h'; rw [hs] at h'; cases h'; exact hc
+      refine ⟨(by intro sc' h'; cases h'; exact hc), ?_⟩
+      rw [C02_price_no_stage s hn] at hsel
+      cases hsel; rfl
+
+/-- a whitelist-side edit takes effect on the very next mint: after the whitelist admin replaced the attached
+whitelist's table by `sc'`, the price in force is read off `sc'` (no stale copy anywhere) -/
+theorem C02_wl_edit_takes_effect (s : SWorld) (id : Nat) (sc' : Sched) (hatt : s.att = some id) :
+    (sstep' s (.wlEdit id sc' true)).sched = some sc' ∧ (sstep' s (.wlEdit id sc' true)).w = s.w := by
+  simp [sstep', sstep, SWorld.sched, hatt, lookupWl, List.find?]
+
+/-- parties of a staged operation -/
+def SOpIn (accts : List Addr) : SOp → Prop
+  | .base op => OpIn accts op
+  | .ext sender moves _ => sender ∈ accts ∧ Closed accts moves
+  | _ => True
+
+theorem solvent_refresh (accts : List Addr) (s : SWorld) : Solvent accts s.refresh ↔ Solvent accts s.w := Iff.rfl
+
+theorem ssolvent_step (accts : List Addr) (hn : accts.Nodup) (s : SWorld) (op : SOp) (hop : SOpIn accts op)
+    (hs : Solvent accts s.w) : Solvent accts (sstep' s op).w := by
+  unfold sstep'
+  cases hstep : sstep s op with
+  | error e => exact hs
+  | ok s' =>
+    simp only []
+    cases op with
+    | base op =>
+      obtain ⟨w', hw, rfl⟩ := sstep_base_ok hstep
+      have := solvent_step accts hn s.refresh op hop ((solvent_refresh accts s).2 hs)
+      unfold step' at this
+      rw [hw] at this
+      exact this
+    | attach id acc =>
+      simp only [sstep] at hstep
+      split at hstep
+      · split at hstep
+        · cases hstep; exact hs
+        · cases hstep
+      · cases hstep
+    | wlEdit id sc acc =>
+      simp only [sstep] at hstep
+      split at hstep
+      · cases hstep; exact hs
+      · cases hstep
+    | ext sender moves acc =>
+      simp only [sstep] at hstep
+      split at hstep
+      · cases hstep
+      · split at hstep
+        · cases hstep
+        · split at hstep
+          · cases hstep
+          · rename_i b hb
+            cases hstep
+            obtain ⟨hm, hr, ht⟩ := hs
+            refine ⟨hm, hr, fun d => ?_⟩
+            have t := total_applyMsgs moves hb accts hn hop.1 hop.2 d
+            have l := (applyMsgs_ledger moves hb sender d).2.2
+            have := ht d
+            simp only [] at *
+            rw [l]; omega
+
+/-- "no coins are created, lost or stranded" after ANY history that also contains `SetWhitelist`, whitelist-admin edits
+(windows moved, stage prices changed, stages added / removed) and arbitrary other messages of the minter -/
+theorem C02_staged_history_conservation (accts : List Addr) (hn : accts.Nodup) (s : SWorld) (ops : List SOp)
+    (hops : ∀ op ∈ ops, SOpIn accts op) (hs : Solvent accts s.w) : Solvent accts (srun s ops).w := by
+  unfold srun
+  induction ops generalizing s with
+  | nil => exact hs
+  | cons op ops ih =>
+    simp only [List.foldl_cons]
+    apply ih
+    · exact fun o ho => hops o (List.mem_cons_of_mem _ ho)
+    · exact ssolvent_step accts hn s op (hops op (List.mem_cons_self ..)) hs
+
+/-- staged operations in which the minter is never a payer, funding target or configured payee -/
+def SOpAway (mi : Addr) (v : Variant) : SOp → Prop
+  | .base op => OpAway mi v op
+  | _ => True
+
+theorem saway_step (s : SWorld) (op : SOp) (hop : SOpAway s.w.m.addr s.w.v op)
+    (hrec : s.w.m.addr ∉ recipients s.w.v s.w.f s.w.m) :
+    (sstep' s op).w.m.addr = s.w.m.addr ∧ (sstep' s op).w.v = s.w.v ∧
+    (sstep' s op).w.m.addr ∉ recipients (sstep' s op).w.v (sstep' s op).w.f (sstep' s op).w.m ∧
+    ∀ d, (sstep' s op).w.bank.bal s.w.m.addr d = s.w.bank.bal s.w.m.addr d := by
+  unfold sstep'
+  cases hstep : sstep s op with
+  | error e => exact ⟨rfl, rfl, hrec, fun _ => rfl⟩
+  | ok s' =>
+    simp only []
+    cases op with
+    | base op =>
+      obtain ⟨w', hw, rfl⟩ := sstep_base_ok hstep
+      have := away_step s.refresh op hop hrec
+      unfold step' at this
+      rw [hw] at this
+      exact this
+    | attach id acc =>
+      simp only [sstep] at hstep
+      split at hstep
+      · split at hstep
+        · cases hstep; exact ⟨rfl, rfl, hrec, fun _ => rfl⟩
+        · cases hstep
+      · cases hstep
+    | wlEdit id sc acc =>
+      simp only [sstep] at hstep
+      split at hstep
+      · cases hstep; exact ⟨rfl, rfl, hrec, fun _ => rfl⟩
+      · cases hstep
+    | ext sender moves acc =>
+      simp only [sstep] at hstep
+      split at hstep
+      · cases hstep
+      · split at hstep
+        · cases hstep
+        · rename_i hbad
+          split at hstep
+          · cases hstep
+          · rename_i b hb
+            cases hstep
+            refine ⟨rfl, rfl, hrec, fun d => ?_⟩
+            have hsm : ¬ s.w.m.addr = sender := fun e => hbad (Or.inl e.symm)
+            have hok : extOk s.w.m.addr moves = true := by
+              cases hx : extOk s.w.m.addr moves with
+              | true => rfl
+              | false => exact absurd (Or.inr hx) hbad
+            have hin : inflow s.w.m.addr d moves = 0 := by
+              apply inflow_zero
+              intro x hx
+              have := List.all_eq_true.mp hok x hx
+              simpa using this
+            have l := (applyMsgs_ledger moves hb s.w.m.addr d).1
+            simp only [hsm, if_false, hin] at l
+            simpa using l
+
+/-- "the minter contract's own balance is unchanged" after ANY staged history: mints under single-stage or tiered
+whitelists at any instants, whitelist swaps and whitelist-admin edits in between, and ANY other message whose observed
+bank effect does not name the minter (the model rejects an `ext` witness that does) -/
+theorem C02_staged_history_minter_never_holds (s : SWorld) (ops : List SOp)
+    (hrec : s.w.m.addr ∉ recipients s.w.v s.w.f s.w.m) (hops : ∀ op ∈ ops, SOpAway s.w.m.addr s.w.v op) (d : Denom) :
+    (srun s ops).w.bank.bal s.w.m.addr d = s.w.bank.bal s.w.m.addr d := by
+  unfold srun
+  induction ops generalizing s with
+  | nil => rfl
+  | cons op ops ih =>
+    simp only [List.foldl_cons]
+    obtain ⟨hma, hv, hrec', hbal⟩ := saway_step s op (hops op (List.mem_cons_self ..)) hrec
+    have := ih (sstep' s op) hrec' (by
+      intro o ho
+      rw [hma, hv]
+      exact hops o (List.mem_cons_of_mem _ ho))
+    rw [hma] at this
+    rw [this, hbal d]
+
+/-- an `ext` operation (any other message) whose witness pays the minter, or whose caller is the minter, is REJECTED by
+the model — so such an observation on the real contracts is a model / implementation disagreement, never absorbed -/
+theorem C02_ext_cannot_touch_minter (s : SWorld) (sender : Addr) (moves : List Msg) (acc : Bool)
+    (h : sender = s.w.m.addr ∨ ∃ m ∈ moves, msgDest m = some s.w.m.addr) :
+    ∃ e, sstep s (.ext sender moves acc) = .error e := by
+  cases acc with
+  | false => exact ⟨.other, by simp [sstep]⟩
+  | true =>
+    have hbad : sender = s.w.m.addr ∨ extOk s.w.m.addr moves = false := by
+      rcases h with h | ⟨m, hm, hd⟩
+      · exact Or.inl h
+      · right
+        cases hx : extOk s.w.m.addr moves with
+        | false => rfl
+        | true =>
+          have := List.all_eq_true.mp hx m hm
+          simp [hd] at this
+    exact ⟨.invalid, by simp [sstep, hbad]⟩
+
+/-! ## Aliased parties -/
+
+/-- per-account closed form of a successful sale for EVERY account but the minter, with no distinctness assumption:
+the payer may be the seller, the developer or a protocol fee recipient, the seller may be a fee recipient — each
+account's change is minus what it attached plus everything the fee distribution and the payout address to it -/
+theorem C02_account_ledger (w w' : World) (sender : Addr) (isAdmin : Bool) (funds : List Coin) (allowed : Bool)
+    (hs : IsSale w.v isAdmin) (h : mint w sender isAdmin funds allowed = .ok w') :
+    ∃ price, selectPrice w.v w.f w.m w.now isAdmin = .ok price ∧
+      ∀ a d, a ≠ w.m.addr →
+        w'.bank.bal a d + (if a = sender ∧ price.denom = d then price.amount else 0) =
+          w.bank.bal a d +
+            inflow a d (feeMsgs w.v w.f price (networkFee w.f isAdmin price) ++ sellerMsgs w.v w.m price (networkFee w.f isAdmin price)) := by
+  obtain ⟨price, hsel, hf⟩ := C02_exact_payment w w' sender isAdmin funds allowed hs h
+  obtain ⟨price', ms, hp, hl⟩ := C02_ledger w w' sender isAdmin funds allowed h
+  have hp2 := hp
+  rw [payMint_sale hs] at hp2
+  obtain ⟨hsel', _, _, rfl⟩ := paySale_ok hp2
+  rw [hsel] at hsel'; cases hsel'
+  refine ⟨price, hsel, fun a d hm => ?_⟩
+  have hl := hl a d
+  rw [hf, coinsIn_exact] at hl
+  simp only [hm, if_false] at hl
+  by_cases ha : a = sender <;> by_cases hd : price.denom = d <;> simp [ha, hd] at hl ⊢ <;> omega
 
 /-! ## Non-vacuity: concrete worlds in which the hypotheses hold and mints succeed -/
 
@@ -711,6 +1046,59 @@ example : (balAfter (mint exWorld 10 true [⟨0, 100⟩] true) 10 0, balAfter (m
 example : (balAfter (mint exWorld 20 false [⟨0, 1001⟩] true) 20 0, balAfter (mint exWorld 20 false [⟨0, 999⟩] true) 20 0,
     balAfter (mint exWorld 20 false [⟨7, 1000⟩] true) 20 0, balAfter (mint exWorld 20 false [⟨0, 1000⟩, ⟨7, 1⟩] true) 20 0)
     = (none, none, none, none) := by decide
+
+/-- the token-merge variant of `exWorld` -/
+def exMerge : World := { exWorld with v := ⟨.tokenMerge, false⟩ }
+
+/-- COUNTEREXAMPLE to the unrestricted "the minter contract's own balance is unchanged": a token-merge deposit
+(`ReceiveNft`, `isAdmin = false`) that arrives with 5 ustars succeeds, and the 5 ustars stay in the minter (1003), which
+is neither the payer nor a payee.  Same on the real contract: `./check C02 --replay corpus/C02/merge-deposit-with-funds.json`. -/
+theorem C02_merge_deposit_funds_counterexample :
+    exMerge.v.family = .tokenMerge ∧ (20 : Addr) ≠ exMerge.m.addr ∧
+    exMerge.m.addr ∉ recipients exMerge.v exMerge.f exMerge.m ∧
+    exMerge.bank.bal exMerge.m.addr 0 = 0 ∧
+    balAfter (mint exMerge 20 false [⟨0, 5⟩] true) exMerge.m.addr 0 = some 5 ∧
+    balAfter (mint exMerge 20 false [⟨0, 5⟩] true) 20 0 = some 4995 := by decide
+
+/-- a tiered whitelist with two CONTIGUOUS stages (700 in [100, 200], 800 in [200, 300]) attached to `exWorld`
+(public price 1000), and the same table read as a single-stage kind would (end-exclusive) -/
+def exStaged (incl : Bool) (now : Nat) : SWorld :=
+  { w := { exWorld with now := now },
+    wls := [(0, ⟨[⟨⟨0, 700⟩, 100, 200⟩, ⟨⟨0, 800⟩, 200, 300⟩], incl⟩)],
+    att := some 0 }
+
+def priceAt (s : SWorld) : Option Nat :=
+  match selectPrice s.refresh.v s.refresh.f s.refresh.m s.refresh.now false with
+  | .ok c => some c.amount
+  | .error _ => none
+
+/-- tiered: 99 → public, 100 → stage 1, 200 (shared instant) → stage 1, 201 → stage 2, 300 → stage 2, 301 → public -/
+example : (priceAt (exStaged true 99), priceAt (exStaged true 100), priceAt (exStaged true 200), priceAt (exStaged true 201),
+    priceAt (exStaged true 300), priceAt (exStaged true 301)) = (some 1000, some 700, some 700, some 800, some 800, some 1000) := by decide
+
+/-- end-exclusive reading: 200 already belongs to the second window, 300 to nobody -/
+example : (priceAt (exStaged false 199), priceAt (exStaged false 200), priceAt (exStaged false 300)) = (some 700, some 800, some 1000) := by decide
+
+def sBalAfter (r : Except Err SWorld) (a : Addr) (d : Denom) : Option Nat :=
+  match r with
+  | .ok s => some (s.w.bank.bal a d)
+  | .error _ => none
+
+/-- in the shared instant 200 buyer 20 pays stage 1's 700 (accepted: payer 4300, seller 630, minter 0); stage 2's 800 and the
+public 1000 are rejected; after the whitelist admin re-priced stage 1 to 650 the same block charges 650 -/
+example : (sBalAfter (sstep (exStaged true 200) (.base (.mint 20 false [⟨0, 700⟩] true))) 20 0,
+    sBalAfter (sstep (exStaged true 200) (.base (.mint 20 false [⟨0, 700⟩] true))) 41 0,
+    sBalAfter (sstep (exStaged true 200) (.base (.mint 20 false [⟨0, 700⟩] true))) 1003 0,
+    sBalAfter (sstep (exStaged true 200) (.base (.mint 20 false [⟨0, 800⟩] true))) 20 0,
+    sBalAfter (sstep (exStaged true 200) (.base (.mint 20 false [⟨0, 1000⟩] true))) 20 0,
+    sBalAfter (sstep (sstep' (exStaged true 200) (.wlEdit 0 ⟨[⟨⟨0, 650⟩, 100, 200⟩, ⟨⟨0, 800⟩, 200, 300⟩], true⟩ true))
+      (.base (.mint 20 false [⟨0, 650⟩] true))) 20 0)
+    = (some 4300, some 630, some 0, none, none, some 4350) := by decide
+
+/-- another message (a shuffle paying 500 into the fair-burn pool and burning 500) is accepted; a witness that pays the
+minter is not -/
+example : (sBalAfter (sstep (exStaged true 150) (.ext 20 [.send FAIRBURN_POOL ⟨0, 500⟩, .burn ⟨0, 500⟩] true)) 20 0,
+    sBalAfter (sstep (exStaged true 150) (.ext 20 [.send 1003 ⟨0, 1⟩] true)) 20 0) = (some 4000, none) := by decide
 
 example : IsSale exWorld.v false ∧ exWorld.m.addr ∉ recipients exWorld.v exWorld.f exWorld.m := by
   refine ⟨Or.inl rfl, by decide⟩
